@@ -246,20 +246,6 @@ func genCfg(t *rapid.T) cfg {
 		for i := 0; i < n; i++ {
 			c.Refs = append(c.Refs, genRange(t, fmt.Sprintf("ref%d", i), pool))
 		}
-		// carve-out: an explicit "~MAX" is generated only where both readings agree
-		for i := range c.Refs {
-			r := &c.Refs[i]
-			if r.HasMax && r.Max == "MAX" {
-				lo := r.minCode()
-				for j, o := range c.Refs {
-					if j != i && o.minCode() > lo {
-						r.Max = "TOP"
-						vk.ExtraAdd("ambiguous_avoided", 1)
-						break
-					}
-				}
-			}
-		}
 		for i := range c.Refs {
 			c.Refs[i] = liftMax(t, fmt.Sprintf("ref%d", i), c.Refs[i])
 		}
@@ -274,6 +260,20 @@ func genCfg(t *rapid.T) cfg {
 			c.Refs[pair[0]] = rng{Min: names[idx[0]], HasMax: true, Max: names[idx[1]]}
 			c.Refs[pair[1]] = rng{Min: names[idx[2]], HasMax: true, Max: names[idx[3]]}
 			c.Target[pair[1]] = c.Target[pair[0]]
+		}
+		// carve-out: an explicit "~MAX" is generated only where both readings agree
+		for i := range c.Refs {
+			r := &c.Refs[i]
+			if r.HasMax && r.Max == "MAX" {
+				lo := r.minCode()
+				for j, o := range c.Refs {
+					if j != i && o.minCode() > lo {
+						r.Max = "TOP"
+						vk.ExtraAdd("ambiguous_avoided", 1)
+						break
+					}
+				}
+			}
 		}
 		c.Order = rapid.Permutation(seq(n)).Draw(t, "order")
 	case "rolling":
